@@ -31,8 +31,10 @@ claim("C03",
       "store, revision and key, a range scan emits exactly the newest version <= R of each key unless it is a deletion, sorted, once; the point "
       "read equals the same spec for every adapter deviation (Quirks); limits give a prefix and more <-> cut short; re-reads are stable. The "
       "full 'any non-empty value' clause is false (value == tombstone): stated, witnessed by `tombstone_value_lost`, replayed every run, known finding. "
-      "Correspondence: random histories on memkv/badger/tikv-mock/metrics wrapper, model vs implementation line by line, plus an independent MVCC oracle.",
-      TB + "Reads at revisions <= committed and >= floor; sequential histories (concurrency is C04/C01).",
+      "KB.Props.C03Bounds: the same for range bounds of the form key+\\x00 (continue key of a paginated list, end of a single-key range): list_is_snapshot_range, "
+      "single_key_range, next_page (pages concatenate to the unlimited read). "
+      "Correspondence: random histories on memkv/badger/tikv-mock/metrics wrapper, model vs implementation line by line, plus an independent MVCC oracle; deterministic bound / paging / empty-value scripts.",
+      TB + "Reads at revisions <= committed and >= floor; sequential histories (concurrency is C04/C01); bounds over the alphabet or key+\\x00.",
       "Lean 4 proof (normal form of the scan loop by induction over sorted record lists) + differential correspondence", "DESIGN.md §5 C03")
 claim("C04",
       "Lean theorems KB.Props.C04 over the interleaving LTS KB.Sys (any number of clients, any schedule, any expected revisions incl. future/"
@@ -61,7 +63,7 @@ claim("C13",
       "Lean theorems KB.Props.C13: the worker loop distributes over a split at a key boundary; adjustPartitionsBorders yields contiguous partitions "
       "whose interior borders are index positions; for ANY sorted list of well-formed borders the concatenation of per-partition outputs equals the "
       "unpartitioned scan; stream batches carry the read revision with one terminator. Correspondence: injected (reversed) partitions on all engines and "
-      "real tikv-mock region splits; List/Count/ListByStream per advertised partition and whole, with an MVCC oracle.",
+      "real tikv-mock region splits; List/Count/ListByStream per advertised partition (predicted borders AND the implementation's own advertisement, `streamadv`) and whole, with an MVCC oracle.",
       TB + "Borders are stored keys or well-formed internal keys (the property's own quantifier).",
       "Lean 4 proof (list induction; border adjustment monotone in (key,rev) order) + differential correspondence", "DESIGN.md §5 C13")
 
@@ -113,8 +115,11 @@ claim("C17",
       "Lean theorems KB.Props.C17: whatever the scanner's expiry removes lies under <prefix>/events/ (the test is DEFINED through facts regenerated from "
       "txn.go / scanner.go / util.go, so a substring match breaks the proof); the TTL is passed on create exactly for those keys; the timeout revision is a "
       "mark at least TTL old; a record expires only at or below it; an expired key loses index and all versions in one pass and produces no read result. "
-      "Correspondence: tikv mock with TTL 1 s, event keys and lookalikes, young/old marks, re-creation, silent expiry.",
-      TB + "Model time advances only by the script's sleeps; native-TTL engines' clocks are assumed.",
+      "KB.Props.C17Mem (model KB.MemTTL of the in-memory engine's per-write timers, any op sequence): a value younger than its ttl is never removed, a value written without "
+      "ttl never expires, an expired value is removed by its own timer and only by it, index and version of one batch share a deadline; the pre-fix unconditional timer is refuted. "
+      "Correspondence: tikv mock with TTL 1 s, event keys and lookalikes, young/old marks, re-creation, silent expiry; engine suite on memkv with a ttl per put and real sleeps; "
+      "an Event renewed within its TTL at the backend (wall-clock marks, only conclusive runs judged).",
+      TB + "Model time advances only by the script's sleeps; Badger's ttl clock is assumed; memkv timers are assumed to fire within 250 ms after (never before) their deadline.",
       "Lean 4 proof + regenerated source facts + differential correspondence with a model clock", "DESIGN.md §5 C17")
 
 claim("C09",
@@ -139,7 +144,10 @@ claim("C18",
       "follower forwards or refuses without touching the backend; every read handler syncs first and returns the sync error); follower read-sync LTS: the full "
       "freshness statement is refuted by `joined_fetch_is_stale` (one known finding, replayed on the real syncer every run); after fix db7d4ff the read revision never "
       "decreases and a read that did its own fetch is fresh (`late_set_does_not_lower`, `stale_read_joined_late`: the late join is the only remaining source of staleness); "
-      "a forwarded transaction is executed at most once and a lost answer is passed on as Unavailable (`forward_at_most_once`). Correspondence: every handler x role x proxy x "
+      "a forwarded transaction is executed at most once and a lost answer is passed on as Unavailable (`forward_at_most_once`). KB.Props.C18Cas: the revision allocator "
+      "(tso.go) as a transition system at ATOMIC-INSTRUCTION granularity, any number of goroutines, every schedule: neither register ever decreases, Deal results are unique and "
+      "increase in real time, after Commit(r) both registers stay >= r and every later Deal is above r, a failed compare-and-swap means another goroutine raised the register "
+      "(bounded retries); the pre-fix plain store / single CAS are refuted; the loop SHAPE of tso.go is regenerated from the source and compared by `source_matches_lts`. Correspondence: every handler x role x proxy x "
       "leader behaviour (exhaustive), follower schedules on the real syncer incl. revisions above 2^53, forwarded transactions through the real etcd proxy with lost answers.",
       TB + "kbextract's syntactic guard analysis (cross-checked row by row by the exhaustive run); role does not change within a request.",
       "Lean 4 proof + decide over a regenerated table + exhaustive differential table run", "docs/DESIGN-C18.md")
@@ -165,7 +173,10 @@ claim("C20",
       "Lean theorems KB.Props.C20 / C20Metrics / C20Requests: metric emission never panics — by decide over the table of ALL emission call sites regenerated from the "
       "source (same formatted name => same kind and label-name set; valid names; client-controlled label values are sanitised) lifted by an induction over arbitrary "
       "emission sequences of the modelled registry; hostile revisions (negative via the uint64 cast, far future) take the rejection path and their revision is "
-      "resolved; after ANY schedule of ANY requests over alphabet keys a fresh create+read works; stored keys never panic Decode. Correspondence: every site replayed "
+      "resolved; after ANY schedule of ANY requests over alphabet keys a fresh create+read works; stored keys never panic Decode. KB.Props.C20Native (model KB.Native of the native handlers as a function of the backend's answer): every request shape "
+      "incl. empty fields and a nil Kv is answered, refusals (validation, expired deadline, follower) leave the state untouched and happen in that order, an accepted request is exactly "
+      "the backend's answer, the shim adds no panic. Correspondence: suite `native` drives the REAL brain.Server handlers (leader / follower with a real revision syncer, expired "
+      "contexts, invalid shapes) line by line against the model; every site replayed "
       "on the real Prometheus client, real Watch with non-UTF-8 keys, hostile keys/revisions/limits through the backend API each followed by a probe.",
       TB + "One hypothesis kept visible: the leader address label (from the election record, not client-writable) is valid UTF-8. Known finding: a key containing the split byte "
       "shadows another key's point reads.",
